@@ -98,6 +98,7 @@ type c47Member struct {
 	idx    int // 1-based member index
 	up     bool
 	byz    bool
+	helper bool // C03 large shapes: does not run the protocol, only ever contributes its valid share
 	node   *verifadapt.NetNode
 	blocks *verifadapt.NodeBlocks
 	ch     *verifadapt.Chan
@@ -138,6 +139,9 @@ type c47World struct {
 	mempool    []*c47Tx
 	subs       []c47Sub
 	stop       bool // a violation that makes further scheduling meaningless
+
+	shape   int          // C03: 0 small group, 1 large threshold, 2 wide group with low threshold
+	preload []*c47Flight // C03: share messages of the non-running members queued before the round starts
 
 	slotOracle bool // C47 clauses on
 	onSubmit   func(m *c47Member, entry []byte)
@@ -271,6 +275,22 @@ func c47Setup(r *verifsim.Run, opts c47Opts) *c47World {
 	w.n = 2 + tp.Choose("n", 6) // 2..7
 	minH := w.n/2 + 1
 	w.h = minH + tp.Choose("h", w.n-minH+1)
+	if opts.byzantine {
+		// C03 only: besides the small groups, (1) large groups with large
+		// thresholds (up to the production 33-of-64) and (2) wide groups with a
+		// low threshold, where few members run the protocol and the others only
+		// contribute shares (simulator-made); member indexes reach two digits.
+		switch w.shape = tp.Weighted("group-shape", 6, 2, 2); w.shape {
+		case 1:
+			w.n = []int{16, 24, 32, 48, 64}[tp.Weighted("large-n", 4, 4, 3, 1, 1)]
+			w.h = w.n/2 + 1 + tp.Choose("large-h-extra", 3)
+			r.Probe(fmt.Sprintf("large-threshold-%d-of-%d", w.h, w.n))
+		case 2:
+			w.n = []int{12, 16, 22, 24, 33}[tp.Choose("wide-n", 5)]
+			w.h = 2 + tp.Choose("wide-h", 3)
+			r.Probe("wide-group-low-threshold")
+		}
+	}
 	w.step = uint64(1 + tp.Choose("step", 3))
 	// Premise (both chain implementations of the repository configure it so):
 	// the timeout leaves room for one step per member.
@@ -319,7 +339,9 @@ func c47Setup(r *verifsim.Run, opts c47Opts) *c47World {
 		m.node = w.sn.AddNode(local_v1.DefaultCurve)
 		m.ch = m.node.Channel(c47Channel)
 		RegisterUnmarshallers(m.ch)
-		if nByz < maxByz && tp.Chance("byzantine", 1, 2) {
+		if w.shape != 0 {
+			// roles are assigned after the loop
+		} else if nByz < maxByz && tp.Chance("byzantine", 1, 2) {
 			m.byz = true
 			nByz++
 		} else if tp.Chance("down", 1, 8) {
@@ -327,7 +349,7 @@ func c47Setup(r *verifsim.Run, opts c47Opts) *c47World {
 			r.Fault("member-down")
 		}
 		late := uint64(0)
-		if m.up && !m.byz && tp.Chance("late", 1, 6) {
+		if m.up && !m.byz && w.shape == 0 && tp.Chance("late", 1, 6) {
 			late = uint64(1 + tp.Choose("late-by", int(w.timeout)))
 			r.Fault("member-late")
 		}
@@ -338,14 +360,45 @@ func c47Setup(r *verifsim.Run, opts c47Opts) *c47World {
 		m.blocks.OnRequest = func(target, cur uint64) { w.onRequest(mm, target) }
 		w.members[i] = m
 	}
-	r.Logf("cfg n=%d h=%d step=%d timeout=%d start=%d residue=%d byz=%d", w.n, w.h, w.step, w.timeout, w.start, w.residue, nByz)
+	running := []int{}
+	if w.shape != 0 {
+		// a few members run the real protocol, at indexes whose decimal forms
+		// are prefixes / concatenations of each other or at the top of the group
+		cands := []int{1, 11, 2, 12, 22, 3, 13, 21, 31, 10, w.n, w.n - 1, w.n / 2}
+		k := 1 + tp.Choose("running", 2)
+		if w.shape == 2 {
+			k = 3 + tp.Choose("running-wide", 4)
+		}
+		isRunning := map[int]bool{}
+		for tries := 0; len(isRunning) < k && tries < 40; tries++ {
+			x := 1 + tp.Choose("running-any", w.n)
+			if tp.Chance("running-special", 3, 4) {
+				x = cands[tp.Choose("running-which", len(cands))]
+			}
+			if x >= 1 && x <= w.n {
+				isRunning[x] = true
+			}
+		}
+		for _, m := range w.members[1:] {
+			if isRunning[m.idx] {
+				running = append(running, m.idx)
+				continue
+			}
+			m.helper = true
+			if nByz < maxByz && tp.Chance("byzantine", 1, 6) {
+				m.byz = true // adversarial: may send anything
+				nByz++
+			}
+		}
+	}
+	r.Logf("cfg n=%d h=%d step=%d timeout=%d start=%d residue=%d byz=%d shape=%d running=%v", w.n, w.h, w.step, w.timeout, w.start, w.residue, nByz, w.shape, running)
 	return w
 }
 
 func (w *c47World) startMembers() {
 	logger := log.Logger("verif-c47")
 	for _, m := range w.members[1:] {
-		if !m.up || m.byz {
+		if !m.up || m.byz || m.helper {
 			continue
 		}
 		m := m
@@ -393,6 +446,10 @@ func (w *c47World) loop(forge c47Forger) {
 		}
 	}
 	collect()
+	for _, f := range w.preload {
+		f.left = honestRecv()
+		pool = append(pool, f)
+	}
 	var byz []*c47Member
 	for _, m := range w.members[1:] {
 		if m.byz {
@@ -421,7 +478,7 @@ func (w *c47World) loop(forge c47Forger) {
 		if alive == 0 {
 			return
 		}
-		if steps > 900 {
+		if steps > 1500 {
 			r.Inconclusive("step-cap")
 			return
 		}
@@ -465,6 +522,9 @@ func (w *c47World) loop(forge c47Forger) {
 		weight := map[string]int{"deliver": 8, "block": 5, "mine": 6, "notify": 4, "forge": 5, "external": 0}
 		if steps > 3 {
 			weight["external"] = 1
+		}
+		if w.shape != 0 && len(kinds["deliver"]) > 0 {
+			weight["block"] = 1 // many shares to hand over before the round times out
 		}
 		avail := []string{}
 		ws := []int{}
